@@ -78,7 +78,8 @@ def make_filter(uc, via_create=False):
         pos = rnd.randrange(3)
         dflt = rnd.randrange(1, 256)
         # half of the conditions are multi-bit values ("non-zero return value is interpreted as true"), often non-zero with bit 0 clear
-        mask = rnd.choice([0b0110, 0b1100, 0b1010_0000, 0b0000_0110]) if rnd.random() < 0.5 else 0
+        # (every even repetition, and a third of the odd ones)
+        mask = rnd.choice([0b0110, 0b1100, 0b1010_0000, 0b0000_0110]) if (getattr(rnd, "rep", 0) % 2 == 0 or rnd.random() < 0.33) else 0
         if mask:
             cond = lambda m, v: v.x & mask  # noqa: E731
         else:
@@ -335,6 +336,7 @@ def run_history(rec, kind, rnd, cycles, case):
     make, check = KINDS[kind]
     with DependencyContext(DependencyManager()):
         try:
+            rnd.rep = case.get("rep", 0)
             dut, callers, targets, info = make(rnd)
             # a second, competing caller of the transformer's (exclusive) method in half of the histories: one caller is served per cycle
             rival = None
